@@ -45,7 +45,20 @@ func VH_C01_ArrayStep() {
 	newSz := vhRange32("newsz", 1, 65536)
 	newElem := vElem{tag: newTag, size: newSz}
 
-	op := vhChoose("op", 9)
+	op := vhChoose("op", 10)
+	if op == 9 {
+		// type change: observable through Type(), persisted with the root, content untouched
+		vhAssert(vhTic(a.Type(), vTypeInfo{id: 42}), "type before")
+		err := a.SetType(vTypeInfo{id: 43})
+		vhAssert(err == nil, "set type: no error")
+		vhAssert(vhTic(a.Type(), vTypeInfo{id: 43}), "type after")
+		vhAssert(logst.stored[rootID], "type change recorded as dirty")
+		b, err := NewArrayWithRootID(logst, rootID)
+		vhAssert(err == nil && vhTic(b.Type(), vTypeInfo{id: 43}), "type visible after reopen")
+		vhAssert(a.Count() == uint64(n), "type change keeps the content")
+		vhReach("step-done")
+		return
+	}
 	if op >= 5 {
 		// out-of-range requests (any 64-bit index) fail like on a plain sequence and change nothing
 		i := vhU64("badidx")
